@@ -385,7 +385,8 @@ static void run_cmd(int ntok, char **tok) {
             if(lookups++ % 2 == 0) ch = zck_get_chunk(ctxs[c], (size_t)k);
             else { ch = zck_get_first_chunk(ctxs[c]); for(long i_ = 0; ch && i_ < k; i_++) ch = zck_get_next_chunk(ch); }
         }
-        if(n < 0 && ch) n = !strcmp(op, "chunk_data") ? (long long)ch->length : (long long)ch->comp_length;
+        /* n = -1: a buffer of exactly the declared size; n = -(1+e): e bytes more than that (a caller with a larger buffer) */
+        if(n < 0 && ch) n = (!strcmp(op, "chunk_data") ? (long long)ch->length : (long long)ch->comp_length) + (-n - 1);
         if(n < 0) n = 0;
         if(n > (1LL << 27)) n = 1LL << 27;     /* the buffer the caller is willing to supply */
         char *b = malloc(n + 1);
